@@ -7,6 +7,7 @@ package main
 
 import (
 	"bufio"
+	"context"
 	"encoding/binary"
 	"encoding/hex"
 	"encoding/json"
@@ -48,6 +49,7 @@ type Scenario struct {
 	EstDelayMs     int               `json:"est_delay_ms"`
 	HandlerDelayMs int               `json:"handler_delay_ms"`
 	CapsDelayMs    int               `json:"caps_delay_ms"`
+	Wildcard       bool              `json:"wildcard"`   // corebgp listens on 0.0.0.0 instead of 127.0.0.1
 	FirstOnly      bool              `json:"first_only"` // plugin script (on_open, handler, delays) applies to the first session only
 }
 
@@ -240,6 +242,25 @@ type runner struct {
 	delivered []delivered
 	serveCh   chan error
 	wg        sync.WaitGroup
+	stallFd   int
+	dummies   []net.Conn
+}
+
+func (r *runner) acceptLoop(l net.Listener) {
+	for {
+		c, err := l.Accept()
+		if err != nil {
+			return
+		}
+		if r.refuse.Load() {
+			if tc, ok := c.(*net.TCPConn); ok {
+				tc.SetLinger(0) // nolint: errcheck
+			}
+			c.Close()
+			continue
+		}
+		r.accepted <- c
+	}
 }
 
 func (r *runner) ms() int64 { return time.Since(r.start).Milliseconds() }
@@ -352,6 +373,64 @@ func (r *runner) step(st []any) error {
 			return nil
 		}
 		r.addConn(name, "in", c)
+	case "dial_to": // name, destination ip, source ip ("" = the configured remote address)
+		name := st[1].(string)
+		src := r.remote.AsSlice()
+		if sip, _ := st[3].(string); sip != "" {
+			src = netip.MustParseAddr(sip).AsSlice()
+		}
+		port := r.lis.Addr().(*net.TCPAddr).Port
+		d := net.Dialer{LocalAddr: &net.TCPAddr{IP: src}, Timeout: 2 * time.Second}
+		c, err := d.Dial("tcp", net.JoinHostPort(st[2].(string), fmt.Sprint(port)))
+		if err != nil {
+			cr := &ConnRec{Name: name, Dir: "in", Refused: true, done: make(chan struct{})}
+			close(cr.done)
+			r.mu.Lock()
+			r.conns[name] = cr
+			r.res.Conns = append(r.res.Conns, cr)
+			r.mu.Unlock()
+			return nil
+		}
+		r.addConn(name, "in", c)
+	case "stall": // replace the remote's listener by one whose accept queue is full: connects hang
+		if st[1].(bool) {
+			r.rlis.Close()
+			fd, err := syscall.Socket(syscall.AF_INET, syscall.SOCK_STREAM, 0)
+			if err != nil {
+				return err
+			}
+			syscall.SetsockoptInt(fd, syscall.SOL_SOCKET, syscall.SO_REUSEADDR, 1) // nolint: errcheck
+			sa := &syscall.SockaddrInet4{Port: r.rport}
+			copy(sa.Addr[:], r.remote.AsSlice())
+			if err := syscall.Bind(fd, sa); err != nil {
+				return err
+			}
+			if err := syscall.Listen(fd, 0); err != nil {
+				return err
+			}
+			r.stallFd = fd
+			for i := 0; i < 3; i++ { // fill the queue
+				d := net.Dialer{Timeout: 150 * time.Millisecond}
+				if c, err := d.Dial("tcp", net.JoinHostPort(r.remote.String(), fmt.Sprint(r.rport))); err == nil {
+					r.dummies = append(r.dummies, c)
+				}
+			}
+		} else {
+			for _, c := range r.dummies {
+				c.Close()
+			}
+			r.dummies = nil
+			syscall.Close(r.stallFd)
+			var err error
+			lc := net.ListenConfig{Control: func(network, address string, c syscall.RawConn) error {
+				return c.Control(func(fd uintptr) { syscall.SetsockoptInt(int(fd), syscall.SOL_SOCKET, syscall.SO_REUSEADDR, 1) }) // nolint: errcheck
+			}}
+			r.rlis, err = lc.Listen(context.Background(), "tcp", net.JoinHostPort(r.remote.String(), fmt.Sprint(r.rport)))
+			if err != nil {
+				return err
+			}
+			go r.acceptLoop(r.rlis)
+		}
 	case "accept":
 		name := st[1].(string)
 		select {
@@ -678,7 +757,11 @@ func runScenario(sc *Scenario) *Result {
 		return res
 	}
 	r.srv = srv
-	r.lis, err = net.Listen("tcp", "127.0.0.1:0")
+	lhost := "127.0.0.1:0"
+	if sc.Wildcard {
+		lhost = "0.0.0.0:0"
+	}
+	r.lis, err = net.Listen("tcp", lhost)
 	if err != nil {
 		res.Error = err.Error()
 		return res
@@ -689,22 +772,7 @@ func runScenario(sc *Scenario) *Result {
 		return res
 	}
 	r.rport = r.rlis.Addr().(*net.TCPAddr).Port
-	go func() {
-		for {
-			c, err := r.rlis.Accept()
-			if err != nil {
-				return
-			}
-			if r.refuse.Load() {
-				if tc, ok := c.(*net.TCPConn); ok {
-					tc.SetLinger(0) // nolint: errcheck
-				}
-				c.Close()
-				continue
-			}
-			r.accepted <- c
-		}
-	}()
+	go r.acceptLoop(r.rlis)
 	if err := r.addPeer(); err != nil {
 		res.Error = "AddPeer: " + err.Error()
 		return res
